@@ -895,17 +895,22 @@ impl World {
                 Some(base.map_or(periodic, |b| b.min(periodic)).max(now + 1))
             }
             Stepping::Oversleep(max) => {
-                let b = base?;
+                // (the lateness is drawn once per request and counted from the requested time: were it keyed on
+                // `base`, which moves with the clock once the request has passed, every other event in the world
+                // would draw again and the daemon would sleep longer than `max`)
+                base?;
+                let r = req?;
                 match self.hosts[h].sleep {
-                    Some((r, granted)) if r == b => Some(granted.max(now + 1)),
+                    Some((r0, granted)) if r0 == r => Some(granted.max(now + 1)),
                     _ => {
                         let late = if self.rng.chance(1, 2) {
                             0
                         } else {
                             self.rng.below(max + 1)
                         };
-                        self.hosts[h].sleep = Some((b, b + late));
-                        Some(b + late)
+                        let granted = (r + late).max(now + 1);
+                        self.hosts[h].sleep = Some((r, granted));
+                        Some(granted)
                     }
                 }
             }
